@@ -470,9 +470,8 @@ impl Serializable for Instruction {
             }
 
             // ----- debug decorators -------------------------------------------------------------
-            Self::Breakpoint => {
-                // this is a transparent instruction and will not be encoded into the library
-            }
+            // the instruction is counted as a node of its body, so it has to be encoded as well
+            Self::Breakpoint => OpCode::Breakpoint.write_into(target),
 
             Self::Debug(options) => {
                 OpCode::Debug.write_into(target);
